@@ -494,15 +494,22 @@ pub fn repr_independence<const H: usize, const N: usize>(k: Kind, greedy: bool) 
     };
     let aa = f(&mut m, Utf32Str::Ascii(&hb), Utf32Str::Ascii(&nb));
     let au = f(&mut m, Utf32Str::Ascii(&hb), Utf32Str::Unicode(&nc));
-    check!(aa.is_some() == au.is_some(), "C01 the decision does not depend on the needle being held as bytes or as code points (ASCII haystack)");
-    check!(aa == au, "C03 the score does not depend on the needle being held as bytes or as code points (ASCII haystack)");
+    // Known finding D2 (see /verif/known_findings.json): the dispatchers answer None for EVERY
+    // (byte haystack, code-point needle) pair, also when the needle holds only ASCII characters.
+    // Exactly that shape is reported as KNOWN-FINDING; any other disagreement is a violation.
+    let d2_shape = au.is_none() && aa.is_some();
+    cover!(d2_shape, "KNOWN-FINDING D2 byte haystack x all-ASCII code-point needle is rejected although the same text held as bytes matches");
+    if !d2_shape {
+        check!(aa.is_some() == au.is_some(), "C01 the decision does not depend on the needle being held as bytes or as code points (ASCII haystack)");
+        check!(aa == au, "C03 the score does not depend on the needle being held as bytes or as code points (ASCII haystack)");
+    }
+    // the other direction of the representation pair is not affected
+    let ua = f(&mut m, Utf32Str::Unicode(&hc), Utf32Str::Ascii(&nb));
+    let uu = f(&mut m, Utf32Str::Unicode(&hc), Utf32Str::Unicode(&nc));
+    check!(ua.is_some() == aa.is_some() && uu.is_some() == aa.is_some(), "C01 the decision does not depend on the haystack being held as bytes or as code points");
+    check!(ua == aa && uu == aa, "C03 the score does not depend on the haystack being held as bytes or as code points");
     cover!(aa.is_some(), "matched");
     std::mem::forget(m);
 }
 
 include!(concat!(env!("NUCLEO_VERIF_GEN"), "/matcher_uni.rs"));
-
-pub mod repr {
-    use super::*;
-    include!(concat!(env!("NUCLEO_VERIF_GEN"), "/matcher_repr.rs"));
-}
